@@ -48,6 +48,7 @@ func Parse(input []byte) (msg ast.HSMSMessage, ok bool) {
 	}()
 
 	p := &parser{input: input}
+	defer verifDone(p)
 	if ok := p.parseMessageLength(); !ok {
 		return p.msg, false
 	}
@@ -62,6 +63,7 @@ type parser struct {
 	pos       int             // current position in input
 	msgLength int             // message length (excluding length bytes)
 	msg       ast.HSMSMessage // parsed HSMS message
+	verif     verifCounters   // verification hook state; empty without build tag "verif"
 }
 
 // parseMessageLength parses the message length which is the first 4 bytes of
@@ -126,6 +128,7 @@ func (p *parser) parseMessage() (ok bool) {
 // parseMessageText creates ast.ItemNode from binary HSMS message text.
 // Return empty item node and ok == false if the message cannot be parsed.
 func (p *parser) parseMessageText() (dataItem ast.ItemNode, ok bool) {
+	verifItem(p)
 	if p.msgLength == 10 {
 		return ast.NewEmptyItemNode(), true
 	}
